@@ -10,23 +10,40 @@ theorem location_is_function (c : Cfg) (caller tName : Text) (sa : Bool) :
       snapshotPath c caller tName sa = snapshotPath c' caller' t' sa' := by
   intro c' caller' t' sa' h1 h2 h3 h4; subst h1 h2 h3 h4; rfl
 
-/-- the file name: Filename, else the test file's base name without its extension (multi-entry)
-    or the test name with '/' replaced by '_' (standalone); standalone names carry `_%d`;
-    then `.snap` and the extension -/
-theorem filename_spec (c : Cfg) (caller tName : Text) (sa : Bool) :
-    constructFilename c caller tName sa =
-      (if c.filename = [] then
-          (if sa then replaceByte tName slash Generated.saReplaceNew
-           else trimSuffix (fpBase caller) (fpExt (fpBase caller)))
-        else c.filename) ++ (if sa then Generated.saSuffix else []) ++ Generated.snapsExt ++ c.extension := by
-  unfold constructFilename
-  cases sa <;> by_cases h : c.filename = [] <;> simp [h]
+/-- the name a snapshot file is built from: Filename, else the test file's base name without its
+    extension (multi-entry) or the test name with '/' replaced by '_' (standalone) -/
+def stem (c : Cfg) (caller tName : Text) (sa : Bool) : Text :=
+  if c.filename = [] then
+    (if sa then replaceByte tName slash Generated.saReplaceNew
+     else trimSuffix (fpBase caller) (fpExt (fpBase caller)))
+  else c.filename
+
+/-- the file name of a multi-entry snapshot: stem, `.snap`, extension -/
+theorem filename_spec (c : Cfg) (caller tName : Text) :
+    constructFilename c caller tName false = stem c caller tName false ++ Generated.snapsExt ++ c.extension := by
+  unfold constructFilename stem
+  by_cases h : c.filename = [] <;> simp [h]
+
+/-- the file name of a standalone snapshot is a FORMAT: stem and extension escaped (`%` ↦ `%%`),
+    the ordinal placeholder `_%d` between the stem and `.snap` -/
+theorem filename_spec_standalone (c : Cfg) (caller tName : Text) :
+    constructFilename c caller tName true =
+      escapeFormat (stem c caller tName true) ++ Generated.saSuffix ++ Generated.snapsExt ++ escapeFormat c.extension := by
+  unfold constructFilename stem
+  by_cases h : c.filename = [] <;> simp [h]
 
 /-- absolute Dir is used as is; a relative Dir is joined to the calling test file's directory -/
-theorem path_spec (c : Cfg) (caller tName : Text) (sa : Bool) :
-    (snapshotPath c caller tName sa).1 =
+theorem path_spec (c : Cfg) (caller tName : Text) :
+    (snapshotPath c caller tName false).1 =
       fpJoin [if fpIsAbs c.snapsDir then c.snapsDir else fpJoin [fpDir caller, c.snapsDir],
-              constructFilename c caller tName sa] := by
+              constructFilename c caller tName false] := by
+  unfold snapshotPath; rfl
+
+/-- the standalone path: the same directory, escaped, joined with the standalone file-name format -/
+theorem path_spec_standalone (c : Cfg) (caller tName : Text) :
+    (snapshotPath c caller tName true).1 =
+      fpJoin [escapeFormat (if fpIsAbs c.snapsDir then c.snapsDir else fpJoin [fpDir caller, c.snapsDir]),
+              constructFilename c caller tName true] := by
   unfold snapshotPath; rfl
 
 /-- **Tie by proof**: `Generated.Funcs.constructFilename` is a transliteration of the Go function
@@ -39,7 +56,7 @@ theorem constructFilename_tied (c : Cfg) (caller tName : Text) (sa : Bool) :
   have h2 : Generated.saReplaceNew = [95] := by decide
   have h3 : Generated.saSuffix = [95, 37, 100] := by decide
   have h4 : slash = 47 := by decide
-  unfold Generated.Funcs.constructFilename GoSnaps.constructFilename
+  unfold Generated.Funcs.constructFilename GoSnaps.constructFilename Generated.Funcs.escapeFormat GoSnaps.escapeFormat
   cases sa <;> by_cases h : c.filename = [] <;> simp [Id.run, h, h1, h2, h3, h4, pure]
 
 theorem consts_ok : Generated.snapsExt = [46, 115, 110, 97, 112] ∧ Generated.saSuffix = [95, 37, 100] ∧
